@@ -185,3 +185,44 @@ mut('c20-run-info-copy-from-new', 'C20', 'R20', ('utils/migration.py', "        
 
 ben('ben-c20-locals', ['C20'], ('utils/migration.py', "                copyfile(old_task.data_path, new_task.data_path)", "                source, destination = old_task.data_path, new_task.data_path\n                copyfile(source, destination)"))
 ben('ben-c20-dry-flip', ['C20'], ('utils/migration.py', "        if dry:\n            print('    to copy')\n        else:\n            print('    copying')", "        if dry:\n            print('    to copy')\n            continue\n        if True:\n            print('    copying')"))
+
+# ---------------------------------------------------------------------------------------------- C12
+_KEY_RET = "        return sha256(f'{parameter_repr}$$${input_tasks_repr}'.encode()).hexdigest()[:32]"
+mut('c12-param-separator', 'C12', 'C12', ('parameter.py', "            return '###'.join(reprs)", "            return '##'.join(reprs)"))
+mut('c12-section-separator', 'C12', 'C12', ('chain.py', _KEY_RET, "        return sha256(f'{parameter_repr}$${input_tasks_repr}'.encode()).hexdigest()[:32]"))
+mut('c12-digest-truncation', 'C12', 'C12', ('chain.py', _KEY_RET, "        return sha256(f'{parameter_repr}$$${input_tasks_repr}'.encode()).hexdigest()[:40]"))
+mut('c12-digest-function', 'C12', 'C12', ('chain.py', _KEY_RET, "        import hashlib\n        return hashlib.sha1(f'{parameter_repr}$$${input_tasks_repr}'.encode()).hexdigest()[:32]"))
+mut('c12-inputs-unsorted', 'C12', 'C12', ('chain.py', "for n, it in sorted(self.input_tasks.items()))\n        return sha256", "for n, it in self.input_tasks.items())\n        return sha256"))
+mut('c12-input-binding-char', 'C12', 'C12', ('chain.py', "            return f'{_name}={_task}'", "            return f'{_name}:{_task}'"))
+mut('c12-namespace-strip-off-by-one', 'C12', 'C12', ('chain.py', "                _name = _name[len(outer_namespace) + 2 :]", "                _name = _name[len(outer_namespace) + 1 :]"))
+mut('c12-json-extension', 'C12', 'C12', ('data.py', "    DATA_TYPES = [str, int, float, bool, dict, list]\n\n    @property\n    def extension(self) -> Union[str, None]:\n        return 'json'", "    DATA_TYPES = [str, int, float, bool, dict, list]\n\n    @property\n    def extension(self) -> Union[str, None]:\n        return 'jsn'"))
+mut('c12-group-separator', 'C12', 'C12', ('task.py', "        path = self._config.base_dir / self.slugname.replace(':', '/')", "        path = self._config.base_dir / self.slugname.replace(':', '__')"))
+mut('c12-run-info-name', 'C12', 'C12', ('data.py', "        return path.parent / f'{path.stem}.run_info.yaml'", "        return path.parent / f'{path.stem}.runinfo.yaml'"))
+mut('c12-log-beside-dir', 'C12', 'C12', ('data.py', "        return path.parent / f'{path.stem}.log'", "        return path / f'{path.stem}.log'"))
+mut('c12-dict-repr-colon', 'C12', 'C12', ('utils/clazz.py', "                f\"{repr_from_instantiation(key)}: {repr_from_instantiation(val)}\" for key, val in sorted(obj.items())", "                f\"{repr_from_instantiation(key)}:{repr_from_instantiation(val)}\" for key, val in sorted(obj.items())"))
+mut('c12-name-value-binding', 'C12', 'C12', ('parameter.py', "        return f'{self.name}={self.value_repr()}'", "        return f'{self.name}: {self.value_repr()}'"))
+mut('c12-part-separator', 'C12', 'C12', ('config.py', "            return f'{self._name}#{self._part}'", "            return f'{self._name}@{self._part}'"))
+mut('c12-slug-keeps-task-suffix', 'C12', 'C12', ('task.py', "            if name.endswith('_task'):\n                name = name[:-5]\n", ""))
+mut('c12-file-name-joiner', 'C12', 'C12', ('data.py', "        return self._base_dir / f'{self._name}.{self.extension}'", "        return self._base_dir / f'{self._name}_{self.extension}'"))
+mut('c12-handled-types', 'C12', 'C12', ('data.py', "    DATA_TYPES = [str, int, float, bool, dict, list]", "    DATA_TYPES = [str, int, float, bool, dict]"))
+mut('c12-auto-object-arg-sep', 'C12', 'C12', ('parameter.py', "        args_repr = ', '.join(f'{k}={repr(v)}' for k, v in sorted(args.items()))", "        args_repr = ','.join(f'{k}={repr(v)}' for k, v in sorted(args.items()))"))
+mut('c12-path-repr-of-value', 'C12', 'C12', ('parameter.py', "            return repr(self._value)\n        return repr_from_instantiation(self.value)", "            return repr(self.value)\n        return repr_from_instantiation(self.value)"))
+mut('c12-key-sorted-by-repr', 'C12', 'C12', ('parameter.py', "        if reprs:\n            return '###'.join(reprs)", "        if reprs:\n            return '###'.join(sorted(reprs))"))
+mut('c12-name-mode-fullname', 'C12', 'C12', ('config.py', "        \"\"\"Used for creating filename in task data persistence, should uniquely define config\"\"\"\n        return self.name", "        \"\"\"Used for creating filename in task data persistence, should uniquely define config\"\"\"\n        return self.fullname"))
+mut('c12-module-group-full', 'C12', 'C12', ('task.py', "        return inspect.getmodule(cls).__name__.split('.')[-1]", "        return inspect.getmodule(cls).__name__.replace('.', ':')"))
+
+ben('ben-c12-key-concat', ['C12', 'C01', 'C02', 'C03'], ('chain.py', _KEY_RET, "        text = str(parameter_repr) + '$$$' + input_tasks_repr\n        return sha256(text.encode('utf-8')).hexdigest()[0:32]"))
+ben('ben-c12-key-format', ['C12', 'C01', 'C02', 'C03'], ('chain.py', _KEY_RET, "        digest = sha256('{}$$${}'.format(parameter_repr, input_tasks_repr).encode())\n        return digest.hexdigest()[:32]"))
+ben('ben-c12-key-join-list', ['C12', 'C02', 'C03'], ('chain.py', _KEY_RET, "        return sha256('$$$'.join([str(parameter_repr), input_tasks_repr]).encode()).hexdigest()[:32]"))
+ben('ben-c12-inputs-loop', ['C12', 'C01', 'C02', 'C03'], ('chain.py', "        input_tasks_repr = '###'.join(_get_input_task_repr(n, it) for n, it in sorted(self.input_tasks.items()))",
+    "        pieces = []\n        for input_name, input_key in sorted(self.input_tasks.items()):\n            pieces.append(_get_input_task_repr(input_name, input_key))\n        input_tasks_repr = '###'.join(pieces)"))
+ben('ben-c12-registry-comprehension', ['C12', 'C01', 'C02', 'C03'], ('parameter.py', "        reprs = []\n        for name, parameter in sorted(self._parameters.items()):\n            repr = parameter.repr\n            if repr is not None:\n                reprs.append(repr)\n",
+    "        reprs = [parameter.repr for name, parameter in sorted(self._parameters.items()) if parameter.repr is not None]\n"))
+ben('ben-c12-helper-inlined', ['C12', 'C02', 'C03'], ('chain.py', "        parameter_repr = task.parameters.repr\n", "        registry = task.parameters\n        parameter_repr = registry.repr\n"))
+ben('ben-c12-filepath-flip', ['C12', 'C05', 'C06'], ('data.py', "        if self.extension is None:\n            return self._base_dir / self._name\n        return self._base_dir / f'{self._name}.{self.extension}'\n\n    @property\n    def extension(self)",
+    "        if self.extension is not None:\n            filename = self._name + '.' + self.extension\n            return self._base_dir / filename\n        return self._base_dir / self._name\n\n    @property\n    def extension(self)"))
+ben('ben-c12-runinfo-percent', ['C12'], ('data.py', "        return path.parent / f'{path.stem}.run_info.yaml'", "        return path.parent / ('%s.run_info.yaml' % path.stem)"))
+ben('ben-c12-param-repr-concat', ['C12', 'C02', 'C03'], ('parameter.py', "        return f'{self.name}={self.value_repr()}'", "        value_text = self.value_repr()\n        return self.name + '=' + value_text"))
+ben('ben-c12-dict-branch-loop', ['C12', 'C02', 'C03'], ('utils/clazz.py', "        return (\n            '{'\n            + ', '.join(\n                f\"{repr_from_instantiation(key)}: {repr_from_instantiation(val)}\" for key, val in sorted(obj.items())\n            )\n            + '}'\n        )",
+    "        items = []\n        for key, val in sorted(obj.items()):\n            items.append(repr_from_instantiation(key) + ': ' + repr_from_instantiation(val))\n        return '{' + ', '.join(items) + '}'"))
+ben('ben-c12-slug-local', ['C12'], ('task.py', "        if cls.group:\n            return f'{cls.group}:{name}'\n        return name", "        group = cls.group\n        if not group:\n            return name\n        return group + ':' + name"))
